@@ -102,6 +102,9 @@ META = {
              "Jacobians and the affine reproduction (failure messages carry both consecutive reference points); 12 % of the generated nls "
              "cases + corpus 20-24; error paths (outside the property): a read after a raising set_refpoint may match the code's "
              "partial update or atomic error paths (second model line, pf = 0)",
+    "pass10": "det/affrow (4 corpus + 30 / 400): an LTV system written as an NLS, rows Σ a_ij(t) x_j + Σ b_ij(t) u_j + c_i(t) (model Fn.affRow): "
+              "pypose's A, B, c1 at three reference points on one object against the coefficient trees evaluated by mpmath at t* and against "
+              "the model's linearize of Fn.affRow (driver op c15.affrow; theorems nls_ltv_jacobians, nls_ltv_constant, nls_ltv_exact)",
     "partial": ["IEEE rounding is not modelled: the float code is compared with the exact model at 64·eps·(sum of "
                 "absolute term magnitudes)",
                 "the explicit second-order constant (Fn.bnd, nls_second_order_explicit) is an upper bound, not the least constant",
@@ -3421,9 +3424,98 @@ DET_CORPUS += [{"kind": "det", "corpus": 19 + k_, "seed": 9519 + k_, "sub": "tie
                 "batch": [], "nobj": 0, "nops": 0, "matbatched": False} for k_, tie_ in enumerate(TIES + TIES[::-1])]
 
 
+def _coef_palette(tv):
+    c = lambda a, b=1, neg=False: ("C", neg, a, b)
+    return [c(1), c(3), c(1, 2), c(5, 4, True), c(0), tv, ("K", tv), ("S", tv), ("*", c(1, 2), tv), ("P", tv, 2), ("+", tv, c(1)), ("~", ("S", tv)),
+            ("*", ("K", tv), tv), ("-", c(2), ("P", tv, 3))]
+
+
+def check_affrow(ctx: Ctx, case):
+    """pass 10: a linear time-variant system written as an NLS — rows `Σ_j a_ij(t) x_j + Σ_j b_ij(t) u_j + c_i(t)` (the model's
+    `Fn.affRow`). pypose's linearisation at any reference point must return A = [a_ij(t*)], B = [b_ij(t*)], c1 = [c_i(t*)]
+    (theorems nls_ltv_jacobians, nls_ltv_constant): oracle = the coefficient trees evaluated by mpmath at t*; model = driver op
+    c15.affrow (`linearize` of `Fn.affRow`)."""
+    import mpmath as mp
+    P = pp()
+    rr = random.Random(case["dseed"])
+    dt, eps = DT(case["dtype"]), common.EPS[case["dtype"]]
+    nx, nu = case["n"], case["m"]
+    tv = ("V", nx + nu)
+    pal = _coef_palette(tv)
+    a = [[rr.choice(pal) for _ in range(nx)] for _ in range(nx)]
+    b = [[rr.choice(pal) for _ in range(nu)] for _ in range(nx)]
+    c = [rr.choice(pal) for _ in range(nx)]
+
+    def coef(tr, state, t):
+        vals = [None] * (nx + nu) + [torch.as_tensor(t).reshape(()).to(state.dtype)]
+        return tree_torch(tr, vals, state.dtype, {})
+
+    class RowNLS(P.module.NLS):
+        def state_transition(self, state, input, t=None):
+            return torch.stack([sum(coef(a[i][j], state, t) * state[..., j] for j in range(nx)) +
+                                sum(coef(b[i][j], state, t) * input[..., j] for j in range(nu)) + coef(c[i], state, t) for i in range(nx)], -1)
+
+        def observation(self, state, input, t=None):
+            return state
+    o = RowNLS()
+    ctx.count("det.affrow")
+    lines, metas = [], []
+    for rep_ in range(3):          # several reference points and times on ONE object
+        xs = [rr.choice([0.0, 1.0, -2.0, 0.5, rr.uniform(-3, 3)]) for _ in range(nx)]
+        us = [rr.choice([0.0, 1.0, -0.75, rr.uniform(-3, 3)]) for _ in range(nu)]
+        ts = rr.randint(0, 9)
+        xt, ut = torch.tensor(xs, dtype=dt), torch.tensor(us, dtype=dt)
+        xs, us = xt.double().tolist(), ut.double().tolist()
+        o.set_refpoint(xt, ut, torch.tensor(ts))
+        A, B, c1 = o.A, o.B, o.c1
+        if not finite(ctx, pub(case), f"A, B, c1 of the LTV system written as an NLS at x*={xs} u*={us} t*={ts}", A, B, c1):
+            return
+        if tuple(A.shape) != (nx, nx) or tuple(B.shape) != (nx, nu) or tuple(c1.shape) != (nx,):
+            ctx.fail(pub(case), f"affrow-shape: A, B, c1 have shapes {tuple(A.shape)}, {tuple(B.shape)}, {tuple(c1.shape)}")
+            return
+        envt = [mp.mpf(0)] * (nx + nu) + [mp.mpf(ts)]
+        for i in range(nx):
+            wa = [tree_mp(a[i][j], envt) for j in range(nx)]
+            wb = [tree_mp(b[i][j], envt) for j in range(nu)]
+            wc = tree_mp(c[i], envt)
+            scale = float(sum(abs(w_ * v_) for w_, v_ in zip(wa, xs)) + sum(abs(w_ * v_) for w_, v_ in zip(wb, us)) + abs(wc))
+            got = A[i].double().tolist() + B[i].double().tolist() + [float(c1[i])]
+            tols = [64 * eps * (1.0 + abs(float(w_))) for w_ in wa + wb] + [64 * eps * (4.0 + 4 * scale)]
+            names = [f"A[{i}][{j}] (coefficient a_{i}{j}(t*))" for j in range(nx)] + [f"B[{i}][{j}] (coefficient b_{i}{j}(t*))" for j in range(nu)] + [f"c1[{i}] (constant term c_{i}(t*))"]
+            for nm_, gv, w_, tl in zip(names, got, wa + wb + [wc], tols):
+                if not (abs(mp.mpf(gv) - w_) <= tl):
+                    ctx.fail(pub(case), f"affrow: LTV system written as an NLS (row {i}: a={[' '.join(tree_tokens(t_, [])) for t_ in a[i]]} b={[' '.join(tree_tokens(t_, [])) for t_ in b[i]]} "
+                                        f"c={' '.join(tree_tokens(c[i], []))}), reference point x*={xs} u*={us} t*={ts}: {nm_} = {gv!r}, the coefficient at t* is {float(w_)!r} (tol {tl:.2e})")
+                    return
+            toks = []
+            for t_ in a[i] + b[i] + [c[i]]:
+                tree_tokens(t_, toks)
+            lines.append(f"c15.affrow {nx} {nu} {nx} {nu} " + " ".join(toks) + " " + wire_list(xs) + " " + wire_list(us) + " " + to_wire(ts))
+            metas.append((i, xs, us, ts, got, tols))
+    for rep, (i, xs, us, ts, got, tols) in zip(ctx.driver.run(lines), metas):
+        want = common.reply_nums(rep)
+        if len(want) != len(got) + 1:
+            ctx.disagree("affrow", pub(case), f"model reply has {len(want)} numbers, expected {len(got) + 1}: {rep[:60]}")
+            return
+        for q_, (gv, w_, tl) in enumerate(zip(got, want, tols)):
+            if not (abs(Fraction(gv) - w_) <= tl):
+                ctx.disagree("affrow", pub(case), f"row {i} at x*={xs} u*={us} t*={ts}: entry {q_} of (A-row, B-row, c1): implementation {gv!r}, model (linearize of Fn.affRow) {float(w_)!r}")
+                return
+
+
+DET_CORPUS += [{"kind": "det", "corpus": 47 + k_, "seed": 9547 + k_, "sub": "affrow", "dseed": 90 + k_, "dtype": dt_, "n": n_, "m": m_, "p": 1, "batch": [], "nobj": 0, "nops": 0,
+                "matbatched": False} for k_, (dt_, n_, m_) in enumerate([("float64", 2, 1), ("float64", 3, 2), ("float32", 2, 2), ("float64", 1, 1)])]
+
+
+def gen_affrow_case(seed, quick=True):
+    rng = random.Random(seed)
+    return {"kind": "det", "seed": seed, "sub": "affrow", "dseed": rng.randrange(1 << 30), "dtype": rng.choice(["float64", "float64", "float32"]),
+            "n": rng.choice([1, 2, 3]), "m": rng.choice([1, 2]), "p": 1, "batch": [], "nobj": 0, "nops": 0, "matbatched": False}
+
+
 def run_det(ctx: Ctx, cases):
     for case in cases:
-        fn = {"defaults": check_defaults, "dtype": check_dtype, "interleave": check_interleave, "ties": check_ties}[case["sub"]]
+        fn = {"defaults": check_defaults, "dtype": check_dtype, "interleave": check_interleave, "ties": check_ties, "affrow": check_affrow}[case["sub"]]
         ctx.note_case(("det", case["sub"], case.get("tie"), case["dtype"], case["n"], case["m"], case["p"], tuple(case["batch"]), case["nobj"], case["nops"], case["matbatched"], case["dseed"]), True)
         guarded(ctx, case, fn)
 
@@ -3815,6 +3907,8 @@ def run(ctx: Ctx):
     run_lin(ctx, [gen_lin_case(s, q) for s in seeds(ctx.pick(520, 8000))])
     run_bmv(ctx, [gen_bmv_case(s, q) for s in seeds(ctx.pick(300, 5000))])
     run_nls(ctx, [gen_nls_case(s, q) for s in seeds(ctx.pick(420, 7000))], ctx.pick(450, 9000))
+    # (pass 10; drawn last so that the sub-seeds of all earlier streams are what they were)
+    run_det(ctx, [gen_affrow_case(s, q) for s in seeds(ctx.pick(30, 400))])
 
 
 def search(ctx: Ctx):
@@ -3840,7 +3934,7 @@ def replay(ctx: Ctx, case) -> bool:
     c = case["case"]
     kind = c.get("kind")
     n0, d0, k0 = len(ctx.failures), len(ctx.disagreements), len(ctx.known_hits)
-    full = dict(CORPORA[kind][c["corpus"]]) if "corpus" in c else GEN[kind](c["seed"], True)     # cases are functions of their sub-seed
+    full = dict(CORPORA[kind][c["corpus"]]) if "corpus" in c else (gen_affrow_case(c["seed"]) if c.get("sub") == "affrow" else GEN[kind](c["seed"], True))     # cases are functions of their sub-seed
     if kind == "clock":
         run_clock(ctx, [full])
     elif kind == "multi":
